@@ -1,7 +1,7 @@
 ----------------------------- MODULE TraceDenom -----------------------------
 (***************************************************************************)
 (* Trace validation of denominator object histories:                       *)
-(*    new(id, d) ; [bcast(id2, id)] ; ( div | value )*                     *)
+(*    new(id, d) ; [bcast(id2, id)] ; ( div | value )* ; [dshift(id3, id)] *)
 (* The specification keeps den[id] = the divisor lanes given at            *)
 (* construction and judges every later use of the object against its own   *)
 (* state (never against a divisor re-logged at the use).  Constructing or   *)
@@ -28,6 +28,15 @@ Bcast(e) == LET s == den[e.from] IN
             /\ den' = Put(e.id, [k |-> s.k, w |-> s.w, d |-> Replicate(s.d, e.N)])
             /\ IF e.sig = "none" THEN UNCHANGED nrej ELSE Reject
 
+\* {"e":"dshift","id":..,"from":..,"o":"shl"|"shr","s":[lane bytes],"sig":..}: den << s / den >> s multiply / divide
+\* the divisor by 2^s (beyond C14; the driver only issues amounts that keep the divisor exact)
+DShift(e) == LET o == den[e.from]
+                 nl == NLanes(o.d, o.w)
+                 nd == [i \in 1..Len(o.d) |->
+                          IntShift(e.o, o.k, LaneOf(o.d, ((i - 1) \div o.w) + 1, o.w), e.s)[((i - 1) % o.w) + 1]]
+             IN /\ den' = Put(e.id, [k |-> o.k, w |-> o.w, d |-> nd])
+                /\ IF e.sig = "none" THEN UNCHANGED nrej ELSE Reject
+
 \* {"e":"div","id":..,"n":..,"q":..,"r":..,"sig":..}  (div, / and %, /= and %= alike)
 Div(e) == LET o == den[e.id]
               ok == e.sig = "none" /\ DenDivOK(o.k, o.w, o.d, e.n, e.q, e.r)
@@ -40,6 +49,7 @@ Consume == /\ l <= Len(Tr)
            /\ LET e == Tr[l] IN
                 CASE e.e = "new"   -> New(e)
                   [] e.e = "bcast" -> Bcast(e)
+                  [] e.e = "dshift" -> DShift(e)
                   [] e.e = "div"   -> Div(e)
                   [] e.e = "value" -> Value(e)
                   [] OTHER -> Reject /\ UNCHANGED den
